@@ -5,7 +5,7 @@ import ast
 
 from ..model import ENFA, NFA, DFA, FABASE, BOX, RSA
 from .common import site_of
-from .flow import (innermost_loop, block_atoms, assignments, executed_calls, Oblig, calls, events, receivers, START, FINAL, STATES, SYMBOLS, DELTA_SYM, DELTA_EPS, SELF, P,
+from .flow import (both_answers, innermost_loop, block_atoms, assignments, executed_calls, Oblig, calls, events, receivers, START, FINAL, STATES, SYMBOLS, DELTA_SYM, DELTA_EPS, SELF, P,
                    result_locs, deps_of, arg_deps)
 
 EXPLANATION = (
@@ -110,7 +110,7 @@ def run(eng, rep, tier):
     for ev in summ.events:
         if ev.kind == "ret" and ev.value is not None and ev.value.has_const():
             consts.add(ev.value.const)
-    ob.decide("R1", "C02.3", walk, "both-verdicts-reachable", consts == {True, False},
+    ob.decide("R1", "C02.3", walk, "both-verdicts-reachable", both_answers(summ),
               "the walk can answer True and False", "the isomorphism walk can only answer %s" % sorted(consts), summ,
               site=site_of(prog, walk, walk.node))
 
